@@ -635,6 +635,11 @@ type c29rop struct {
 	a    int   // start: key; finish: error id (0 = nil)
 	dt   int64 // tick
 	next int   // finish: blocked thread that obtained the worker (-1 none); filled by the driver
+	// k == 3: the request of c fails with error a and is parked inside the not-found matcher (i.e.
+	// inside RequestCache.error); meanwhile the racers call Start; then the matcher is released.
+	// Emitted as the sequential history Finish c; Start racer1; Start racer2 (the only order the
+	// lock region of error() allows). Racer key -1 = the key of the failing request.
+	racers [][2]int
 }
 
 func (o c29rop) coq() string {
@@ -843,8 +848,104 @@ func (v *c29viaRefresher) code(err error) string {
 }
 
 type c29rc struct {
-	sys c29starter
-	th  []*c29rthread
+	sys    c29starter
+	th     []*c29rthread
+	park   int32 // 1: the next matcher call parks
+	parked int32 // 1 while a goroutine is parked inside the matcher
+	resume chan struct{}
+}
+
+// matcher is the ErrorMatcher given to SetNotFound: error id 1 is "not found"; on request it parks
+// its caller (the worker goroutine that is recording a failure).
+func (s *c29rc) matcher(err error) bool {
+	if atomic.CompareAndSwapInt32(&s.park, 1, 0) {
+		atomic.StoreInt32(&s.parked, 1)
+		<-s.resume
+		atomic.StoreInt32(&s.parked, 0)
+	}
+	return err == c29errs[1]
+}
+
+// launch starts thread c calling Start(key) (the caller must have checked that c is free).
+func (s *c29rc) launch(c, key int) {
+	th := s.th[c]
+	th.key = key
+	atomic.StoreInt32(&th.back, 0)
+	atomic.StoreInt32(&th.st, rsInStart)
+	go func() {
+		err := s.sys.start(key, func() error {
+			atomic.StoreInt32(&th.st, rsInR)
+			e := <-th.fin
+			atomic.StoreInt32(&th.st, rsLeaving)
+			return e
+		})
+		if err != nil {
+			th.ret = s.sys.code(err)
+			th.retc = c29retCode(th.ret)
+			atomic.StoreInt32(&th.st, rsRet)
+		}
+		atomic.StoreInt32(&th.back, 1)
+	}()
+}
+
+func (s *c29rc) free(c int) bool {
+	st := atomic.LoadInt32(&s.th[c].st)
+	return st == rsIdle || st == rsRet
+}
+
+// raceOK: can o (k == 3) be run as a race now?  Otherwise it degrades to an ordinary Finish.
+func (s *c29rc) raceOK(o *c29rop) bool {
+	if _, direct := s.sys.(*c29direct); !direct || o.a == 0 || len(o.racers) == 0 {
+		return false
+	}
+	if atomic.LoadInt32(&s.th[o.c].st) != rsInR {
+		return false
+	}
+	for _, t := range s.th {
+		if atomic.LoadInt32(&t.st) == rsInStart {
+			return false // a start waiting for a worker would race for the freed one
+		}
+	}
+	seen := map[int]bool{o.c: true}
+	for _, r := range o.racers {
+		if r[0] < 0 || r[0] >= len(s.th) || seen[r[0]] || !s.free(r[0]) {
+			return false
+		}
+		seen[r[0]] = true
+	}
+	return true
+}
+
+// race runs o (k == 3); the racers' keys are resolved in place.
+func (s *c29rc) race(o *c29rop) bool {
+	th := s.th[o.c]
+	for i := range o.racers {
+		if o.racers[i][1] < 0 {
+			o.racers[i][1] = th.key
+		}
+	}
+	atomic.StoreInt32(&s.park, 1)
+	th.fin <- c29errs[o.a]
+	if !c29waitQuiet() {
+		return false
+	}
+	for _, r := range o.racers {
+		s.launch(r[0], r[1])
+		if !c29waitQuiet() {
+			return false
+		}
+	}
+	atomic.StoreInt32(&s.park, 0)
+	if atomic.LoadInt32(&s.parked) == 1 {
+		s.resume <- struct{}{}
+	}
+	if !c29waitQuiet() {
+		return false
+	}
+	if atomic.LoadInt32(&th.st) == rsLeaving {
+		atomic.StoreInt32(&th.st, rsIdle)
+	}
+	return true
 }
 
 // c29retCode: compact status code (dec_rst) of a readable Start result
@@ -873,24 +974,7 @@ func (s *c29rc) apply(o *c29rop) bool {
 		if st := atomic.LoadInt32(&th.st); st != rsIdle && st != rsRet {
 			return true
 		}
-		th.key = o.a
-		atomic.StoreInt32(&th.back, 0)
-		atomic.StoreInt32(&th.st, rsInStart)
-		key := o.a
-		go func() {
-			err := s.sys.start(key, func() error {
-				atomic.StoreInt32(&th.st, rsInR)
-				e := <-th.fin
-				atomic.StoreInt32(&th.st, rsLeaving)
-				return e
-			})
-			if err != nil {
-				th.ret = s.sys.code(err)
-				th.retc = c29retCode(th.ret)
-				atomic.StoreInt32(&th.st, rsRet)
-			}
-			atomic.StoreInt32(&th.back, 1)
-		}()
+		s.launch(o.c, o.a)
 	case 2:
 		th := s.th[o.c]
 		if atomic.LoadInt32(&th.st) != rsInR {
@@ -938,10 +1022,10 @@ func (s *c29rc) apply(o *c29rop) bool {
 	return true
 }
 
-func (s *c29rc) snap() ([]int32, string, string) {
+func (s *c29rc) snapParts() ([]int32, []string, []uint64) {
 	var sts []int32
 	var xs []string
-	code, mul := uint64(0), uint64(1)
+	var cs []uint64
 	for _, th := range s.th {
 		st := atomic.LoadInt32(&th.st)
 		sts = append(sts, st)
@@ -963,10 +1047,24 @@ func (s *c29rc) snap() ([]int32, string, string) {
 			xs = append(xs, "QTransient")
 			c = 4
 		}
+		cs = append(cs, c)
+	}
+	return sts, xs, cs
+}
+
+func c29joinSnap(xs []string, cs []uint64) (string, string) {
+	code, mul := uint64(0), uint64(1)
+	for _, c := range cs {
 		code += c * mul
 		mul *= 256
 	}
-	return sts, verifhlib.List(xs), strconv.FormatUint(code, 10)
+	return verifhlib.List(xs), strconv.FormatUint(code, 10)
+}
+
+func (s *c29rc) snap() ([]int32, string, string) {
+	sts, xs, cs := s.snapParts()
+	a, b := c29joinSnap(xs, cs)
+	return sts, a, b
 }
 
 type c29rcfg struct{ nf, er, clean, workers, busy int64 }
@@ -981,6 +1079,7 @@ type c29rcOut struct {
 	enc    []string
 	runs   int
 	starts int
+	races  int
 	incon  bool
 }
 
@@ -993,7 +1092,8 @@ func c29rcRun(cfg c29rcfg, n int, via bool, next func(step int, sts []int32) *c2
 		rc := dedup.NewRequestCache(dedup.RequestCacheConfig{
 			NotFoundTTL: time.Duration(cfg.nf), ErrorTTL: time.Duration(cfg.er), CleanupInterval: time.Duration(cfg.clean),
 			NumWorkers: int(cfg.workers), BusyTimeout: time.Duration(cfg.busy)}, clk, tally.NoopScope)
-		rc.SetNotFound(func(err error) bool { return err == c29errs[1] })
+		s.resume = make(chan struct{})
+		rc.SetNotFound(s.matcher)
 		s.sys = &c29direct{clk, rc}
 	}
 	defer s.sys.close()
@@ -1002,7 +1102,48 @@ func c29rcRun(cfg c29rcfg, n int, via bool, next func(step int, sts []int32) *c2
 	}
 	var res c29rcOut
 	sts, _, _ := s.snap()
-	do := func(o c29rop) bool {
+	var do func(o c29rop) bool
+	doRace := func(o c29rop) bool {
+		before, xs, cs := s.snapParts()
+		if !s.race(&o) {
+			res.incon = true
+			return false
+		}
+		after, fx, fc := s.snapParts()
+		// the sequential history this must be equivalent to, with the snapshots it would show
+		xs, cs = append([]string{}, xs...), append([]uint64{}, cs...)
+		xs[o.c], cs[o.c] = "QIdle", 0
+		emit := func(op c29rop, last bool) {
+			if last {
+				xs, cs = fx, fc // the real final snapshot: anything unexpected shows here
+			}
+			so, se := c29joinSnap(xs, cs)
+			res.ops = append(res.ops, op)
+			res.obs = append(res.obs, so)
+			res.enc = append(res.enc, se)
+		}
+		emit(c29rop{k: 2, c: o.c, a: o.a, next: -1}, false)
+		for i, r := range o.racers {
+			xs[r[0]], cs[r[0]] = fx[r[0]], fc[r[0]]
+			emit(c29rop{k: 1, c: r[0], a: r[1], next: -1}, i == len(o.racers)-1)
+			res.starts++
+		}
+		res.races++
+		for i, st := range after {
+			if st == rsInR && before[i] != rsInR {
+				res.runs++
+			}
+		}
+		sts = after
+		return true
+	}
+	do = func(o c29rop) bool {
+		if o.k == 3 {
+			if s.raceOK(&o) {
+				return doRace(o)
+			}
+			o = c29rop{k: 2, c: o.c, a: o.a}
+		}
 		before := sts
 		if !s.apply(&o) {
 			res.incon = true
@@ -1075,8 +1216,15 @@ func c29rcEmit(ctx *verifhlib.Ctx, cfg c29rcfg, n int, r c29rcOut, kind string) 
 		hist = append(hist, o.kind())
 	}
 	coq := fmt.Sprintf("CRc %s %d %s %s", cfg.coq(), n, verifhlib.List(eops), verifhlib.List(r.enc))
-	ctx.Emit(verifhlib.Case{Coq: coq, NT: r.runs >= 1 && r.starts >= 2, Kind: kind, Hist: hist, Incon: r.incon,
-		Sample: map[string]interface{}{"config": cfg.coq(), "threads": n, "ops": ops, "obs": r.obs}})
+	var tags []string
+	for i := 0; i < r.races; i++ {
+		hist = append(hist, "RStartDuringErrorRecording")
+	}
+	if r.races > 0 {
+		tags = append(tags, "start-during-error-recording")
+	}
+	ctx.Emit(verifhlib.Case{Coq: coq, NT: r.runs >= 1 && r.starts >= 2, Kind: kind, Hist: hist, Incon: r.incon, Tags: tags,
+		Sample: map[string]interface{}{"config": cfg.coq(), "threads": n, "ops": ops, "obs": r.obs, "starts_during_error_recording": r.races}})
 }
 
 func c29rscript(ops []c29rop) func(int, []int32) *c29rop {
@@ -1093,6 +1241,7 @@ func c29rcSeeds(ctx *verifhlib.Ctx) {
 	T := func(dt int64) c29rop { return c29rop{k: 0, dt: dt} }
 	S := func(c, k int) c29rop { return c29rop{k: 1, c: c, a: k} }
 	F := func(c, e int) c29rop { return c29rop{k: 2, c: c, a: e} }
+	R := func(c, e int, racers ...[2]int) c29rop { return c29rop{k: 3, c: c, a: e, racers: racers} }
 	cfg := c29rcfg{nf: 20, er: 10, clean: 4, workers: 1, busy: 7}
 	seeds := []struct {
 		name string
@@ -1114,6 +1263,13 @@ func c29rcSeeds(ctx *verifhlib.Ctx) {
 		{"rc-seed-error-replaced", cfg, 2, []c29rop{S(0, 1), F(0, 2), T(11), S(1, 1), F(1, 3), S(0, 1), T(10), S(0, 1), T(1), S(0, 1)}},
 		// default configuration (zero fields)
 		{"rc-seed-defaults", c29rcfg{}, 2, []c29rop{S(0, 1), S(1, 1), F(0, 2), S(1, 1), T(15 * c29sec), S(1, 1), T(1), S(1, 1), F(1, 1), T(15 * c29sec), S(0, 1), T(1), S(0, 1)}},
+		// a Start of the key while its failure is being recorded (worker parked inside the not-found
+		// matcher, i.e. inside error()): it must see the cached error, never a free key
+		{"rc-seed-start-during-error", cfg, 3, []c29rop{S(0, 1), R(0, 2, [2]int{1, -1}), S(2, 1), T(10), S(2, 1), T(1), S(2, 1)}},
+		{"rc-seed-start-during-notfound", c29rcfg{nf: 20, er: 10, clean: 4, workers: 2, busy: 7}, 4,
+			[]c29rop{S(0, 1), S(3, 2), R(0, 1, [2]int{1, -1}, [2]int{2, 2}), S(1, 1), F(3, 3), S(2, 2)}},
+		{"rc-seed-two-starts-during-error", c29rcfg{nf: 20, er: 10, clean: 4, workers: 3, busy: 7}, 3,
+			[]c29rop{S(0, 2), R(0, 3, [2]int{1, -1}, [2]int{2, -1}), S(0, 2)}},
 		{"rc-seed-disabled-ops", cfg, 2, []c29rop{F(0, 2), S(0, 1), S(0, 2), F(1, 0), F(0, 0), F(0, 0)}},
 	}
 	for _, sd := range seeds {
